@@ -5,7 +5,7 @@
    target source is compared with the implementation (mirror oracle). *)
 From Coq Require Import List ZArith Bool.
 From EosV Require Import lib.AList model.World model.Engine model.Ops proofs.Misc_p proofs.Status_p proofs.Frame_p
-     proofs.Owner_p proofs.Cinv_p proofs.Runs_p model.Wf proofs.RunsC_p proofs.RunsK_p proofs.RunsD_p.
+     proofs.Owner_p proofs.Cinv_p proofs.Runs_p model.Wf proofs.Link_p proofs.RunsC_p proofs.RunsK_p proofs.RunsD_p.
 Import ListNotations.
 
 Theorem C14_same_source_noop : forall s x new y,
@@ -36,16 +36,13 @@ Proof. intros s x new Js. exact (proj2 (source_set_op_MK s x new Js)). Qed.
 
 (* ... and the same for charges and autocharges in flat worlds: KJ is the invariant above together with
    "every charge / autocharge runs the table's set for its holder's state under the source it is loaded from,
-   holds nothing, is listed by its holder" (proofs/RunsC_p.v). The hypothesis about the moment between
-   unloading and reloading (every fit of the solar system lists its items once and they are unloaded) is the
-   OSource clause of op_okb3, evaluated by the driver on every generated switch. *)
+   holds nothing, is listed by its holder", the converse links and "loaded from the current source"
+   (proofs/RunsC_p.v, RunsK_p.v). What the switch needs of the moment between unloading and reloading -- every
+   fit of the solar system lists its items once, they are unloaded, nothing is loaded from the old source -- is
+   proved (src_mid_facts) from container consistency CI and the agreement SSI of a fit's solar-system reference
+   with the solar system's fit list (proofs/Link_p.v). *)
 Theorem C14_switch_reestablishes_invariants_for_charges : forall s x new,
-  KJ (fst s) ->
-  (forall y, get_ss (fst s) x = Some y -> onat_eqb (ss_source y) new = false -> LS (fst (src_mid s x y new))) ->
-  (forall y, get_ss (fst s) x = Some y -> new <> None ->
-     let m := fst (src_mid s x y new) in
-     NoDup (flat_map (fit_list m) (ss_fit_list m x)) /\
-     forall j, In j (flat_map (fit_list m) (ss_fit_list m x)) -> dir_unloaded m j) ->
+  KJ (fst s) -> CI (fst s) -> SSI (fst s) ->
   w_err (fst (fst (source_set_op s x new))) = None ->
   KJ (fst (fst (source_set_op s x new))).
 Proof. exact source_set_op_KJ. Qed.
@@ -53,10 +50,9 @@ Proof. exact source_set_op_KJ. Qed.
 (* ---- every history, base layer: a directly held item that is loaded sits in a container of a fit and is
    loaded from the source the solar system of that fit has NOW. Nothing stays loaded from a source that was
    switched away, from a solar system the fit has left, or after the item left its fit. Proved through every
-   operation (LS, part of the invariant KJ); at a source switch the statement for the moment between unloading
-   and reloading is part of the hypothesis op_okb3 (evaluated by the driver on every generated switch), i.e. for
-   the switch itself the theorem says: if unloading left nothing loaded from the old source, reloading loads
-   everything from the new one -- PARTIAL there, outright everywhere else. ---- *)
+   operation (LS, part of the invariant KJ), the source switch included: unloading leaves nothing of the solar
+   system's fits loaded, so after the source is set nothing is loaded from the old one, and reloading loads from
+   the new one. ---- *)
 Theorem C14_loaded_from_current_source_after_every_history : forall pen ops,
   ops_clean3b (init_sys pen) ops = true ->
   let w := s_w (run (init_sys pen) ops) in
